@@ -118,6 +118,14 @@ type Reg struct {
 	// this is only used where nothing is constructed (Build must fail).
 	HasCtorOf bool
 	CtorOf    int
+	// StandIn: StandInLead registration calls before this registration is
+	// issued, another constructor is registered under its (single) identity with
+	// lifetime StandInLife; right before this registration's own call the
+	// stand-in is removed again (the documented way of replacing a service by a
+	// mock: Remove, then Add). The stand-in is no part of the model.
+	StandIn     bool
+	StandInLead int
+	StandInLife int
 	// Variadic: the constructor is variadic; its last dependency (a service of
 	// the slice type []I0) is declared as "...I0".
 	Variadic bool
@@ -210,6 +218,9 @@ func (r Reg) String() string {
 	}
 	if r.Variadic {
 		sb.WriteString(" (variadic: last parameter ...I0)")
+	}
+	if standInOK(&r) {
+		fmt.Fprintf(&sb, " (replaces a %s stand-in registered %d calls earlier and removed right before)", []string{"Sing", "Scop", "Tran"}[r.StandInLife], r.StandInLead)
 	}
 	if len(r.After) > 0 {
 		fmt.Fprintf(&sb, " (registered after r%d removed it)", r.After[0])
